@@ -30,8 +30,14 @@ ASSUMPTIONS = [
 _G = {}
 
 
+def eid(i):
+    # ids are unique per bucket only: the first two events of a list share id 7 (as events concatenated from
+    # two buckets do), and so do events of the other list (seeded: "repeated" ids were dropped as duplicates)
+    return 7 if i < 2 else i + 5
+
+
 def mk(emb, ivs, tag, with_ids=True):
-    return [emb.ev(s, d, {"label": f"{tag}{i}"}, id=(i + 1 if with_ids else None)) for i, (s, d) in enumerate(ivs)]
+    return [emb.ev(s, d, {"label": f"{tag}{i}"}, id=(eid(i) if with_ids else None)) for i, (s, d) in enumerate(ivs)]
 
 
 def snap(evs):
@@ -39,7 +45,7 @@ def snap(evs):
 
 
 def check_intersect(emb, a, b, order):
-    A, B = mk(emb, a, "a"), mk(emb, b, "b", with_ids=False)
+    A, B = mk(emb, a, "a"), mk(emb, b, "b", with_ids=len(b) % 2 == 1)
     if order == "rev":
         A.reverse()
         B.reverse()
@@ -63,7 +69,7 @@ def check_intersect(emb, a, b, order):
         for (t, f) in b:
             lo, hi = max(s, t), min(s + d, t + f)
             if hi - lo > 0:
-                want[(lo, hi, f"a{i}", i + 1)] += 1
+                want[(lo, hi, f"a{i}", eid(i))] += 1
     got = collections.Counter()
     for e in out:
         lo, hi = emb.iv(e)
@@ -78,6 +84,24 @@ def check_intersect(emb, a, b, order):
             probs.append(("intersect-piece-missing", f"missing {sorted(miss.elements())}; got {sorted(got.elements())}"))
         if extra:
             probs.append(("intersect-piece-extra-or-wrong", f"unexpected {sorted(extra.elements())}; expected {sorted(want.elements())}"))
+    if not probs:
+        # the SAME event objects, legally changed (everything moved one unit later), then used again: the result
+        # moves with them (seeded: the computed period was remembered on the Event object and never invalidated)
+        from datetime import timedelta
+
+        for e in A + B:
+            e.timestamp = e.timestamp + timedelta(microseconds=emb.unit_us)
+        try:
+            out3 = filter_period_intersect(A, B)
+        except Exception as e:
+            return [("intersect-raised", f"after moving the events: {type(e).__name__}: {e}")]
+        got3 = collections.Counter()
+        for e in out3:
+            lo, hi = emb.iv(e)
+            if hi - lo > 0:
+                got3[(lo - 1, hi - 1, e.data.get("label"), e.id)] += 1
+        if got3 != want:
+            probs.append(("intersect-stale-after-events-moved", f"same objects moved by one unit: pieces (moved back) {sorted(got3.elements())} expected {sorted(want.elements())}"))
     return probs
 
 
@@ -119,6 +143,18 @@ def check_union(emb, a, b, order):
     wp = points(list(a) + list(b))
     if gp != wp:
         probs.append(("union-point-set-wrong", f"output {got} covers half-unit points {sorted(gp ^ wp)} differently from the inputs {list(a) + list(b)}"))
+    if not probs:
+        from datetime import timedelta
+
+        for e in A + B:
+            e.timestamp = e.timestamp + timedelta(microseconds=emb.unit_us)
+        try:
+            out3 = period_union(A, B)
+        except Exception as e:
+            return [("union-raised", f"after moving the events: {type(e).__name__}: {e}")]
+        got3 = [tuple(int(x) - 1 for x in emb.iv(e)) for e in out3]
+        if got3 != got:
+            probs.append(("union-stale-after-events-moved", f"same objects moved by one unit: union (moved back) {got3}, before {got}"))
     return probs
 
 
